@@ -18,6 +18,11 @@ func init() {
 		Assumptions: commonAssumptions,
 		Rules:       []Rule{{"no-global-write", ruleNoSharedState}, {"zero-concurrency", ruleZeroConcurrency}},
 	})
+	register(&PropSpec{ID: "C17",
+		Explanation: "Decides that (R8.1) every io.Reader parameter of the library flows only into consumers documented to loop over short reads (bufio.Scanner/Reader, xml.Decoder, astits.Demuxer, io.ReadFull/ReadAtLeast/ReadAll) or into in-package functions that do the same, that no method Read([]byte) is called directly anywhere in the package (zero-rule with a positive control), and (R8.2) by enumerating all paths of every bufio.SplitFunc installed in the package with an interval domain over len(data), the terminator index and atEOF, that whenever a length-guarded look-ahead byte has not arrived and atEOF is not known true the function returns (0, nil, nil), and that every returned token advances. Given these, every byte the package interprets comes from a consumer whose output is independent of read sizes. Not decided: that bufio, encoding/xml and astits honour that documentation.",
+		Assumptions: commonAssumptions,
+		Rules: []Rule{{"reader-flow", ruleReaderFlow}, {"split-lookahead", ruleSplitFunc}},
+	})
 	register(&PropSpec{ID: "C18",
 		Explanation: "Decides on the SSA control-flow graphs of the reader/writer closures and of package main that (R7.1) the error of every I/O error source (Read/Write invokes, io.ReadFull, xml Decoder/Encoder, astits demuxer, os.Open/Create, scanner.Err, and every in-package function that transitively returns such an error) is tested or returned, and that from its non-nil edge every path ends in a return carrying a provably non-nil error (or log.Fatal in main) without rejoining normal flow, except for a frozen list of end-of-input sentinel conversions; (R7.2) after bufio.Scanner.Scan has returned false no possibly-nil-error return is reachable without consulting Err() (read failure and ErrTooLong are delivered only there); (R7.3) buffered sinks are flushed on success paths. Not decided: Close errors; that a short write is accompanied by an error (io.Writer contract).",
 		Assumptions: commonAssumptions,
